@@ -209,6 +209,9 @@ def run(prog: Program, rep: Report, tier: str = "quick") -> None:
             seen.add(key)
             rep.add(Instance(d["rule"], d["verdict"], d["module"], d["function"], d["construct"], d["line"], d.get("message", ""), d.get("detail", {})))
     n = len(roles)
+    from . import game
+
+    game.add_instances(rep, game.c02_job, [(i, tier) for i in range(n)], "R2.9", 100 * n)
     rep.floor("R2.1", 6 * n)
     rep.floor("R2.4", 6 * n)
     rep.floor("R2.5", 6 * n)
